@@ -175,6 +175,10 @@ impl Report {
 			if is_known {
 				println!("KNOWN-FINDING: property={} {} [{}]", self.property, f.what, f.key);
 				known_matched.push(f.key.clone());
+				// replayable artefact of the known finding too (committed copies live in findings/)
+				let fname = format!("{}/replays/known-{}-{:016x}.json", root, self.property, crate::world::hash_value(&json!(f.key)));
+				let body = json!({"property": self.property, "key": f.key, "what": f.what, "replay": f.replay});
+				let _ = std::fs::write(&fname, serde_json::to_vec_pretty(&body).unwrap());
 			} else {
 				violations += 1;
 				let fname = format!(
